@@ -213,7 +213,7 @@ class TealBlock(ABC):
         for block in TealBlock.Iterate(start):
             if len(block.ops) == 0:
                 outgoing = block.getOutgoing()
-                if len(outgoing) == 1:
+                if len(outgoing) == 1 and outgoing[0] is not block:
                     # if block has 0 ops and 1 outgoing edge, directly connect every incoming block
                     # to the single outgoing block, thereby removing an unnecessary intermediate
                     # jump to this block
@@ -230,7 +230,7 @@ class TealBlock(ABC):
                             outgoingBlock.incoming.append(prev)
 
                     if block is start:
-                        start = block
+                        start = outgoing[0]
 
         return start
 
